@@ -15,7 +15,7 @@ use std::time::Duration;
 use subtle::ConstantTimeEq;
 use tokio::time::error::Elapsed;
 use tokio::{select, time};
-use tracing::{trace, Span};
+use tracing::{error, trace, Span};
 
 #[derive(Debug, thiserror::Error)]
 pub enum Error {
@@ -110,7 +110,12 @@ impl<P: Protocol> RemoteLink<P> {
                 let mut new_props = props.clone().unwrap_or_default();
                 new_props.assigned_client_identifier = assigned_client_id;
                 *props = Some(new_props);
-                network.write(packet).await?;
+                // The router has registered this connection by now. If the peer is gone already,
+                // don't give up here (nobody else could tell the router): `start` fails on the dead
+                // network and its caller reports the disconnection and decides the will
+                if let Err(e) = network.write(packet).await {
+                    error!(error=?e, "Failed to write connack");
+                }
             }
         }
 
